@@ -258,7 +258,7 @@ func (d *driver) runGated(a, b gatedRPC, gate string, pipelined bool) {
 	emit := func(order string) {
 		tr.tag = tag + "/order=" + order
 		tr.n, tr.hist, tr.bad = 0, nil, false
-		tr.tw.Emit(map[string]any{"op": "Reset", "tag": tr.tag, "st": init, "up": d.e.UP, "stored": []int{1, 2, 3, 4}, "pex": []string{}, "att": init.Att})
+		tr.tw.Emit(map[string]any{"op": "Reset", "tag": tr.tag, "tipd": init.Tipd, "st": init, "up": d.e.UP, "stored": []int{1, 2, 3, 4}, "pex": []string{}, "att": init.Att})
 		d.res.Traces++
 		var seq []stepRec
 		a0 := aSteps[0]
